@@ -98,6 +98,10 @@ func resolveTypeText(pkg *types.Package, t string) types.Type {
 	case "error":
 		return types.Universe.Lookup("error").Type()
 	}
+	if o, ok := types.Universe.Lookup(t).(*types.TypeName); ok {
+		// the remaining predeclared types (byte, uint8, int32, ...)
+		return o.Type()
+	}
 	if i := strings.Index(t, "."); i >= 0 {
 		pn, tn := t[:i], t[i+1:]
 		for _, imp := range pkg.Imports() {
@@ -341,12 +345,12 @@ func (e *SpecEnv) Eval(x SExpr) SV {
 				if c, ok := p.(SCall); ok && c.Fn == "$multi" {
 					var ts []string
 					for _, a := range c.Args {
-						ts = append(ts, ne.Eval(a).Term)
+						ts = append(ts, patTerm(ne.Eval(a)))
 					}
 					ps = append(ps, "("+strings.Join(ts, " ")+")")
 					continue
 				}
-				ps = append(ps, "("+ne.Eval(p).Term+")")
+				ps = append(ps, "("+patTerm(ne.Eval(p))+")")
 			}
 			bt = fmt.Sprintf("(! %s :pattern %s)", bt, strings.Join(ps, " :pattern "))
 		}
@@ -354,6 +358,15 @@ func (e *SpecEnv) Eval(x SExpr) SV {
 	}
 	e.fail("cannot evaluate %s", x)
 	return SV{}
+}
+
+// patTerm: the term of a trigger expression; a struct location (s[i] of a struct-element slice, *p) is
+// represented by its reference (an empty :pattern () is rejected by cvc5 and ignored by z3).
+func patTerm(v SV) string {
+	if v.Term == "" && v.Loc != nil {
+		return v.Loc.Base
+	}
+	return v.Term
 }
 
 func (e *SpecEnv) constVal(c *types.Const) SV {
@@ -762,6 +775,19 @@ func (e *SpecEnv) evalCall(x SCall) SV {
 		// the i-th value accepted by xml Encode (ghost sequence)
 		_, seq := encHeaps(e.G)
 		return SV{Term: fmt.Sprintf("(select %s %s)", e.Cur.Heap(seq), arg(0).Term), Typ: types.NewInterfaceType(nil, nil)}
+	case "marshalCount":
+		// number of successful xml.Marshal/MarshalIndent calls so far (ghost)
+		n, _, _ := marshalHeaps(e.G)
+		return SV{Term: e.Cur.Heap(n), Typ: intT}
+	case "marshalAt":
+		// the value handed to the i-th successful xml.Marshal/MarshalIndent call (ghost sequence)
+		_, seq, _ := marshalHeaps(e.G)
+		return SV{Term: fmt.Sprintf("(select %s %s)", e.Cur.Heap(seq), arg(0).Term), Typ: types.NewInterfaceType(nil, nil)}
+	case "marshalOut":
+		// the bytes returned by the i-th successful xml.Marshal/MarshalIndent call (ghost sequence)
+		_, _, out := marshalHeaps(e.G)
+		// []byte as the source spells it (the universe's byte, whose cell heap is M_byte; types.Typ[types.Byte] is uint8)
+		return SV{Term: fmt.Sprintf("(select %s %s)", e.Cur.Heap(out), arg(0).Term), Typ: types.NewSlice(types.Universe.Lookup("byte").Type())}
 	case "seen":
 		// seen(k): key k has been produced by the enclosing range-over-map loop
 		sv, ok := e.Vars["#seen"]
@@ -784,6 +810,8 @@ func (e *SpecEnv) evalCall(x SCall) SV {
 			e.fail("string() of non-string %v", v.Typ)
 		}
 		return SV{Term: v.Term, Typ: types.Typ[types.String]}
+	case "sprintf":
+		return e.evalSprintf(x)
 	case "itoa":
 		return SV{Term: "(itoa " + arg(0).Term + ")", Typ: types.Typ[types.String]}
 	case "atoi":
